@@ -5,7 +5,7 @@
   reports BOTH directions (`model-wellformed-but-compiler-rejects`, `model-rejects-but-compiles`).
 
   Sub-checks (each a `Bool`, `wellFormed` is their conjunction, `firstFailure` names the first that fails):
-    pkgOk          package name is an identifier, not a keyword, not `main`
+    pkgOk          package name is an identifier, not a keyword, not `main`, not `documentation`
     importsOk      import paths distinct; imported packages = packages referred to
     topLevelOk     top-level names are valid identifiers, pairwise distinct, distinct from the import names
     typesOk        every struct type: field names valid and distinct; parameter lists: names valid and distinct
@@ -91,7 +91,9 @@ def GoFile.funcs (f : GoFile) : List Func := f.decls.filterMap Decl.func?
 
 /-! ## pkgOk, importsOk, topLevelOk -/
 
-def pkgOk (f : GoFile) : Bool := validName f.pkg && f.pkg != str "main"
+/-- the package clause: an identifier, no keyword, and none of `reservedPkgNames` — `main` (not importable) and
+    `documentation` (go/build skips such files, the package has no Go files left) -/
+def pkgOk (f : GoFile) : Bool := validName f.pkg && !reservedPkgNames.contains f.pkg
 
 def Decl.pkgRefs : Decl → List Bytes
   | .type _ t => t.quals
